@@ -43,7 +43,7 @@ constexpr unsigned IDM        = IDMOD;  // payload ids and packet counters are k
 constexpr unsigned max_pl     = 27;     // max payload with the default max_rx_size / max_tx_size of 29
 constexpr std::uint8_t tx_tag = 0x40;   // first payload byte of PDU k committed by the peripheral : 0x40 | k
 constexpr std::uint8_t rx_tag = 0x80;   // first payload byte of data PDU k of the central         : 0x80 | k
-constexpr std::uint8_t mic_garbage = 0xEE, crc_garbage = 0xEC;
+constexpr std::uint8_t mic_garbage = 0xEE, crc_garbage = 0xEC, llid0_payload = 0xC0;
 constexpr std::uint8_t filler = 0xA5;   // payload = one tag byte + filler: stale bytes in the rings stay few in kind
 
 inline void fill( std::uint8_t* body, std::uint8_t first, unsigned len ) { if ( len ) { memset( body, filler, len ); body[ 0 ] = first; } }
@@ -95,9 +95,9 @@ struct Radio : bluetoe::link_layer::ll_data_pdu_buffer< TX, RX, Radio< TX, RX > 
     bool event_end( bool ) { return true; }
 };
 
-enum { C_DATA = 0, C_EMPTY = 1, C_RETX = 2 };
+enum { C_DATA = 0, C_EMPTY = 1, C_RETX = 2, C_LLID0 = 3, NC = 4 };  // C_LLID0: new non-empty PDU with the reserved LLID 0
 enum { FT_OK = 0, FT_LOST = 1, FT_CRC = 2, FT_MIC = 3 };
-enum { U_NONE = 0, U_COMMIT1 = 1, U_COMMITMAX = 2, U_CONSUME = 3, U_CONSUME_LATE = 4, NU = 5 };
+enum { U_NONE = 0, U_COMMIT1 = 1, U_COMMITMAX = 2, U_CONSUME = 3, U_CONSUME_LATE = 4, U_RESET = 5, NU = 6 };  // U_RESET: new connection
 enum { P_LOST, P_FULL, P_CRC, P_MIC, P_RECEIVED };
 
 inline const char* path_name( int p )
@@ -111,6 +111,7 @@ struct Ref
     // independent central
     std::uint8_t c_sn, c_nesn;                  // transmitSeqNum / nextExpectedSeqNum of the central
     std::uint8_t c_has_last, c_last_data, c_last_id, c_last_sn, c_last_acked;
+    std::uint8_t c_last_llid0;                  // the last PDU is a non-empty one with the reserved LLID 0
     std::uint8_t c_next_id;                     // id of the next new data PDU
     std::uint8_t c_tx_cnt, c_rx_cnt;            // the central's CCM packet counters ( mod IDM )
     // what the peripheral told the central
@@ -119,6 +120,9 @@ struct Ref
     std::uint8_t up_last;                       // id handed up last ( 0xff: none )
     // PDUs committed by the upper layer
     std::uint8_t commit_id;                     // id of the next PDU to commit
+    std::uint8_t id_base_tx;                    // id of the first PDU committed in this connection ( packet counter 0 )
+    std::uint8_t llid0_sent;                    // new PDUs with LLID 0 sent so far
+    std::uint8_t resets;                        // connections started on this object after the first one
     std::uint8_t n_in_ring;                     // committed, not yet removed from the transmit ring ( as observed )
     std::uint8_t n_not_at_central;              // committed, not yet accepted by the central
     std::uint8_t tx_sz[ 32 ];                   // payload sizes of the PDUs not yet accepted by the central, oldest first
@@ -134,6 +138,8 @@ struct World
     Ref ref;
 
     // statistics only, not part of the state
+    int  max_resets = 1;    // how often a path may start a new connection ( reset_pdu_buffer() ) on the same buffer object
+    int  max_llid0  = 1;    // how many non-empty PDUs with the reserved LLID 0 the central may send on a path
     bool want_obs = false, in_drain = false;     // observations as text only for replays and samples
     bool class_seen[ 4096 ] = {};
     template < class F > void note_class( mc::Ctx& c, int code, F&& name )
@@ -169,14 +175,14 @@ struct World
         return i;
     }
 
-    int num_events() const { return 3 * 4 * 2 * NU; }
+    int num_events() const { return NC * 4 * 2 * NU; }
 
     std::string describe( int ev ) const
     {
-        static const char* ca[] = { "central:new-data", "central:new-empty", "central:retransmit-last" };
+        static const char* ca[] = { "central:new-data", "central:new-empty", "central:retransmit-last", "central:new-data-with-LLID-0" };
         static const char* fc[] = { "c->p:ok", "c->p:lost", "c->p:crc-error", "c->p:mic-error" };
         static const char* fp[] = { "p->c:ok", "p->c:lost" };
-        static const char* ua[] = { "upper:none", "upper:commit(1)", "upper:commit(27)", "upper:consume", "upper:consume-after-schedule" };
+        static const char* ua[] = { "upper:none", "upper:commit(1)", "upper:commit(27)", "upper:consume", "upper:consume-after-schedule", "upper:new-connection(reset_pdu_buffer)" };
         const In i = decode( ev );
         return std::string( ua[ i.uact ] ) + " " + ca[ i.cact ] + " " + fc[ i.fcp ] + " " + fp[ i.fpc ];
     }
@@ -193,6 +199,9 @@ struct World
     }
 
     static unsigned central_len( unsigned id ) { return ( id & 1 ) ? 1u : max_pl; }
+    static_assert( IDM <= 8, "bit 3 of the payload tag is the connection generation" );
+    // payload tag of PDU id in the current connection: ids restart with every connection, bit 3 tells the connections apart
+    unsigned tag( unsigned id ) const { return id | ( ( ref.resets & 1 ) ? 8u : 0u ); }
 
     // ---------------------------------------------------------------------------------------------------------------
     // observation of the transmit ring: how many PDUs left it since the last look ( -1: head is not explainable )
@@ -206,8 +215,8 @@ struct World
         const unsigned len = h.buffer[ 1 ];
         if ( len == 0 || ( h.buffer[ 2 ] & 0xf0 ) != tx_tag ) return -1;
         const unsigned id = h.buffer[ 2 ] & 0x0f;
-        if ( ref.n_in_ring >= 1 && id == pop_id ) return 0;
-        if ( ref.n_in_ring >= 2 && id == ( pop_id + 1 ) % IDM ) return 1;
+        if ( ref.n_in_ring >= 1 && id == tag( pop_id ) ) return 0;
+        if ( ref.n_in_ring >= 2 && id == tag( ( pop_id + 1 ) % IDM ) ) return 1;
         return -1;
     }
 
@@ -281,7 +290,7 @@ struct World
         const read_buffer b = dut->allocate_transmit_buffer();
         const unsigned id = ref.commit_id;
         layout::header( b, std::uint16_t( 0x02 | ( len << 8 ) ) );
-        fill( layout::body( b ).first, tx_tag | id, len );
+        fill( layout::body( b ).first, tx_tag | tag( id ), len );
         dut->commit_transmit_buffer( b );
         ref.tx_sz[ ref.n_not_at_central ] = std::uint8_t( len );
         ref.commit_id = std::uint8_t( ( id + 1 ) % IDM );
@@ -290,6 +299,29 @@ struct World
             viol( c, 15, "tx-ring:head-changed:commit", "after commit_transmit_buffer() the oldest PDU of the transmit ring is not the oldest unacknowledged one" );
         if ( dut->pending_outgoing_data_available() != ( ref.n_in_ring != 0 ) )
             viol( c, 15, "tx-ring:pending-flag-wrong:commit", "pending_outgoing_data_available() contradicts the number of unacknowledged PDUs" );
+    }
+
+    // a new connection on the same object: link_layer calls reset_pdu_buffer(), the encryption counters restart, the
+    // central of the new connection starts with SN = NESN = 0; nothing of the old connection may show up again
+    void do_reset( mc::Ctx& c )
+    {
+        // while there is no connection the link layer uses raw_pdu_buffer() ( documented: ll_data_pdu_buffer::size bytes ) for
+        // advertising; afterwards reset_pdu_buffer() starts the connection and the encryption counters restart
+        memset( dut->raw_pdu_buffer(), 0xAD, dut_t::size );
+        dut->reset_pdu_buffer();
+        dut->rx_cnt = 0; dut->tx_cnt = 0;
+        Ref& r = ref;
+        r.c_sn = r.c_nesn = 0; r.c_has_last = r.c_last_data = r.c_last_id = r.c_last_sn = r.c_last_acked = r.c_last_llid0 = 0;
+        r.c_tx_cnt = r.c_rx_cnt = 0;
+        r.r_nesn = 0;
+        memset( r.up_q, 0, sizeof r.up_q ); r.up_n = 0; r.up_last = 0xff;
+        r.n_in_ring = 0; r.n_not_at_central = 0; memset( r.tx_sz, 0, sizeof r.tx_sz );
+        r.commit_id = 0; r.c_next_id = 0; r.id_base_tx = 0;
+        ++r.resets;
+        if ( tx_pops() != 0 || dut->pending_outgoing_data_available() )
+            viol( c, 15, "tx-ring:not-empty-after-connection-reset", "after reset_pdu_buffer() the transmit ring still holds a PDU of the old connection" );
+        check_rx_ring( c, "connection-reset", 15 );
+        note_class( c, 3010, []{ return std::string( "upper:new-connection" ); } );
     }
 
     bool can_consume() { return ref.up_n != 0 || dut->next_received().size != 0; }
@@ -317,7 +349,7 @@ struct World
         ref.up_last = it.id;
         memmove( ref.up_q, ref.up_q + 1, sizeof ref.up_q - 1 );
         --ref.up_n;
-        note_class( c, 1600 + ( when[ 0 ] == 'a' ), [&]{ return mc::fmt( "upper:consumed:%s", when ); } );
+        note_class( c, 3000 + ( when[ 0 ] == 'a' ), [&]{ return mc::fmt( "upper:consumed:%s", when ); } );
     }
 
     // ---------------------------------------------------------------------------------------------------------------
@@ -327,16 +359,23 @@ struct World
         // acknowledged PDU ( old SN together with an up to date NESN )
         if ( !FORCED && i.cact == C_RETX && ref.c_last_acked ) return false;
         if ( MODE == 1 && ( i.uact == U_COMMIT1 || i.uact == U_COMMITMAX ) ) return false;
-        if ( MODE == 2 && i.cact == C_DATA ) return false;
+        if ( MODE == 2 && ( i.cact == C_DATA || i.cact == C_LLID0 ) ) return false;
+        if ( i.cact == C_LLID0 && ref.llid0_sent >= max_llid0 ) return false;
+        if ( i.uact == U_RESET )
+        {   // the central of the new connection starts from scratch
+            if ( ref.resets >= max_resets || i.cact == C_RETX ) return false;
+        }
+        else
         if ( i.cact == C_RETX ) { if ( !ref.c_has_last ) return false; }
         else if ( ref.c_has_last && !ref.c_last_acked ) return false;       // a central may only send new data after the ack
         if ( i.fcp == FT_LOST && i.fpc != 0 ) return false;                   // nothing is transmitted without an anchor
         if ( i.fcp == FT_MIC )
         {
-            const bool data = i.cact == C_DATA || ( i.cact == C_RETX && ref.c_last_data );
+            const bool data = i.cact == C_DATA || i.cact == C_LLID0 || ( i.cact == C_RETX && ref.c_last_data );
             if ( !data ) return false;                                       // empty PDUs carry no MIC
-            const unsigned sn = i.cact == C_RETX ? ref.c_last_sn : ref.c_sn;
-            if ( sn == ref.r_nesn && ORACLE != 17 ) return false;            // MIC failure on a new PDU is the subject of C17
+            const bool fresh = i.uact == U_RESET;
+            const unsigned sn = fresh ? 0 : i.cact == C_RETX ? ref.c_last_sn : ref.c_sn;
+            if ( sn == ( fresh ? 0 : ref.r_nesn ) && ORACLE != 17 ) return false;            // MIC failure on a new PDU is the subject of C17
         }
         switch ( i.uact )
         {
@@ -363,6 +402,7 @@ struct World
         if ( in.uact == U_COMMIT1 )   do_commit( 1, c );
         if ( in.uact == U_COMMITMAX ) do_commit( max_pl, c );
         if ( in.uact == U_CONSUME )   do_consume( c, "before-schedule" );
+        if ( in.uact == U_RESET )     do_reset( c );
         if ( !c.fails.empty() || c.prune ) return;
 
         // -- schedule_connection_event ------------------------------------------------------------------------------
@@ -376,21 +416,25 @@ struct World
         if ( in.cact != C_RETX )
         {
             r.c_has_last = 1; r.c_last_acked = 0; r.c_last_sn = r.c_sn;
-            r.c_last_data = in.cact == C_DATA;
-            if ( r.c_last_data ) { r.c_last_id = r.c_next_id; r.c_next_id = std::uint8_t( ( r.c_next_id + 1 ) % IDM ); }
+            r.c_last_data  = in.cact == C_DATA || in.cact == C_LLID0;
+            r.c_last_llid0 = in.cact == C_LLID0;
+            // a PDU with LLID 0 is not numbered ( it must never be handed up ): 1 octet payload 0xC0
+            if ( r.c_last_llid0 ) { r.c_last_id = 0; ++r.llid0_sent; }
+            else if ( r.c_last_data ) { r.c_last_id = r.c_next_id; r.c_next_id = std::uint8_t( ( r.c_next_id + 1 ) % IDM ); }
         }
-        const bool     data = r.c_last_data;
+        const bool     data = r.c_last_data, llid0 = r.c_last_llid0;
         const unsigned id   = r.c_last_id;
-        const unsigned len  = data ? central_len( id ) : 0;
+        const unsigned len  = llid0 ? 1 : data ? central_len( id ) : 0;
         const unsigned sn   = r.c_last_sn, nesn = r.c_nesn;
         const bool     forced = in.cact == C_RETX && r.c_last_acked;
 
         const int path = in.fcp == FT_LOST ? P_LOST : full ? P_FULL : in.fcp == FT_CRC ? P_CRC : in.fcp == FT_MIC ? P_MIC : P_RECEIVED;
         const bool is_new = sn == r.r_nesn;
-        const char* kind = data ? ( is_new ? "new-data" : "resent-data" ) : ( is_new ? "new-empty" : "resent-empty" );
+        const char* kind = llid0 ? ( is_new ? "new-llid0" : "resent-llid0" ) : data ? ( is_new ? "new-data" : "resent-data" ) : ( is_new ? "new-empty" : "resent-empty" );
+        const int kindi = ( is_new ? 0 : 1 ) + ( llid0 ? 4 : data ? 0 : 2 );
 
         // -- what the radio DMA leaves in the receive buffer ---------------------------------------------------------------
-        const std::uint8_t h0 = std::uint8_t( ( data ? 0x02 : 0x01 ) | ( sn ? 0x08 : 0 ) | ( nesn ? 0x04 : 0 ) );
+        const std::uint8_t h0 = std::uint8_t( ( llid0 ? 0x00 : data ? 0x02 : 0x01 ) | ( sn ? 0x08 : 0 ) | ( nesn ? 0x04 : 0 ) );
         if ( path == P_LOST ) {}
         else if ( !full )
         {
@@ -402,7 +446,7 @@ struct World
             else
             {
                 layout::header( rb, std::uint16_t( h0 | ( len << 8 ) ) );
-                fill( layout::body( rb ).first, in.fcp == FT_MIC ? mic_garbage : ( rx_tag | id ), len );
+                fill( layout::body( rb ).first, in.fcp == FT_MIC ? mic_garbage : llid0 ? llid0_payload : ( rx_tag | tag( id ) ), len );
             }
         }
         else
@@ -437,7 +481,7 @@ struct World
             if ( tx_pops() != 0 )
                 viol( c, 15, "tx-ring:pdu-removed-without-acknowledge:nothing-received", "a PDU left the transmit ring in an event in which nothing was received" );
             if ( !c.fails.empty() || c.prune ) return;
-            note_class( c, ( is_new ? 0 : 1 ) + ( data ? 0 : 2 ) + ( path == P_LOST ? 0 : 1610 ), [&]{ return mc::fmt( "%s/%s/no-answer", path == P_LOST ? "lost" : path_name( path ), kind ); } );
+            note_class( c, 3020 + kindi + ( path == P_LOST ? 0 : 10 ), [&]{ return mc::fmt( "%s/%s/no-answer", path == P_LOST ? "lost" : path_name( path ), kind ); } );
             check_rx_ring( c, "no-answer", 15 );
             return;
         }
@@ -486,10 +530,10 @@ struct World
         }
         if ( !c.fails.empty() || c.prune ) return;
 
-        if ( accepted && data )
+        if ( accepted && data && !llid0 )
         {
             if ( r.up_n == sizeof r.up_q ) { c.prune = true; return; }
-            r.up_q[ r.up_n++ ] = std::uint8_t( id );
+            r.up_q[ r.up_n++ ] = std::uint8_t( tag( id ) );
         }
 
         // -- C16: receive counter -----------------------------------------------------------------------------------------
@@ -498,7 +542,7 @@ struct World
             if ( rx_delta != expect )
             {
                 const char* m = rx_delta > 1 ? "incremented-more-than-once"
-                              : expect ? "not-incremented:new-data-pdu"
+                              : expect ? ( llid0 ? "not-incremented:new-llid0-pdu" : "not-incremented:new-data-pdu" )
                               : path == P_MIC ? "incremented:mic-failure"
                               : path != P_RECEIVED ? "incremented:nothing-received"
                               : !data ? ( is_new ? "incremented:new-empty-pdu" : "incremented:resent-empty-pdu" )
@@ -528,20 +572,21 @@ struct World
 
         // -- the answer of the peripheral ---------------------------------------------------------------------------------
         const bool t_data = t_len != 0;
-        unsigned t_id = 0xff; bool t_ok = true;
+        unsigned t_id = 0xff; bool t_ok = true, t_old = false;
         if ( t_data )
         {
             const std::uint8_t* body = layout::body( trans ).first;
             t_ok = trans.size >= 2 + t_len && ( body[ 0 ] & 0xf0 ) == tx_tag && t_llid == 2;
             if ( t_ok )
             {
-                t_id = body[ 0 ] & 0x0f;
-                t_ok = t_id < IDM && ( t_len == 1 || t_len == max_pl );
+                t_old = ( body[ 0 ] & 8u ) != ( tag( 0 ) & 8u );     // a PDU committed in the previous connection
+                t_id = body[ 0 ] & 0x07;
+                t_ok = !t_old && t_id < IDM && ( t_len == 1 || t_len == max_pl );
                 t_ok = t_ok && filled( body, t_len );
             }
             // the k-th committed PDU has to be encrypted with packet counter k
-            if ( t_ok && tx_cnt_on_air != t_id )
-                viol( c, 16, "tx-counter:nonce-mismatch", mc::fmt( "committed PDU number %u (mod %u) is on air with transmit packet counter %u", t_id, IDM, tx_cnt_on_air ) );
+            if ( t_ok && tx_cnt_on_air != ( t_id + IDM - r.id_base_tx ) % IDM )
+                viol( c, 16, "tx-counter:nonce-mismatch", mc::fmt( "PDU number %u (mod %u) of this connection is on air with transmit packet counter %u", ( t_id + IDM - r.id_base_tx ) % IDM, IDM, tx_cnt_on_air ) );
         }
         else if ( t_llid != 1 )
             viol( c, 15, "tx:empty-pdu-with-wrong-llid", mc::fmt( "empty PDU with LLID %u", t_llid ) );
@@ -550,7 +595,7 @@ struct World
         if ( !c.fails.empty() || c.prune ) return;
 
         // -- receive ring content -----------------------------------------------------------------------------------------
-        if ( !check_rx_ring( c, path_name( path ), path == P_MIC ? 17 : 15 ) ) return;
+        if ( !check_rx_ring( c, llid0 && path == P_RECEIVED ? "received-llid0-pdu" : path_name( path ), path == P_MIC ? 17 : 15 ) ) return;
 
         // -- the central receives -------------------------------------------------------------------------------------
         const char* tk = "answer-lost"; int tki = 0;
@@ -571,7 +616,7 @@ struct World
                     if ( t_ok && r.n_not_at_central != 0 && t_id == want && t_len != r.tx_sz[ 0 ] ) t_ok = false;
                     if ( !t_ok || r.n_not_at_central == 0 || t_id != want )
                     {
-                        const char* k = !t_ok ? "corrupt" : t_id == ( want + IDM - 1 ) % IDM ? "duplicate" : "out-of-order";
+                        const char* k = t_old ? "old-connection" : !t_ok ? "corrupt" : t_id == ( want + IDM - 1 ) % IDM ? "duplicate" : "out-of-order";
                         viol( c, 15, mc::fmt( "central:accepted-%s-pdu", k ),
                             mc::fmt( "the central accepted a new PDU (SN %u) with id %u (intact %d), the next committed PDU is %s", t_sn, t_id, t_ok,
                                 r.n_not_at_central ? mc::fmt( "id %u", want ).c_str() : "none" ) );
@@ -588,7 +633,7 @@ struct World
                 { tk = t_data ? "answer-resent-data" : "answer-resent-empty"; tki = t_data ? 3 : 4; }
         }
 
-        const int code = 4 + ( ( ( ( ( path * 4 + ( is_new ? 0 : 1 ) + ( data ? 0 : 2 ) ) * 2 + toggled ) * 2 + ( pops ? 1 : 0 ) ) * 5 + tki ) * 2 + ( r.c_last_acked ? 1 : 0 ) ) * 2 + ( forced ? 1 : 0 );
+        const int code = 4 + ( ( ( ( ( path * 6 + kindi ) * 2 + toggled ) * 2 + ( pops ? 1 : 0 ) ) * 5 + tki ) * 2 + ( r.c_last_acked ? 1 : 0 ) ) * 2 + ( forced ? 1 : 0 );
         note_class( c, code, [&]{ return mc::fmt( "%s/%s%s/%s/%s%s/%s", path_name( path ), kind, forced ? "(forced)" : "", toggled ? "ack" : "nak", pops ? "tx-acknowledged/" : "", tk,
             r.c_last_acked ? "central-got-ack" : "central-unacked" ); } );
     }
@@ -630,8 +675,8 @@ struct World
                     budget, ref.n_in_ring, ref.n_not_at_central, ref.c_last_acked ) );
         c.prune = false;
         in_drain = false; want_obs = keep_obs;
-        if ( stalled ) note_class( c, 1620, []{ return std::string( "drain:receive-ring-empty-but-no-buffer(C18)" ); } );
-        else if ( done ) note_class( c, 1621, []{ return std::string( "drain:all-delivered" ); } );
+        if ( stalled ) note_class( c, 3040, []{ return std::string( "drain:receive-ring-empty-but-no-buffer(C18)" ); } );
+        else if ( done ) note_class( c, 3041, []{ return std::string( "drain:all-delivered" ); } );
         all.load( keep.data() );
     }
 };
